@@ -53,16 +53,30 @@ func init() {
 			return []Val{nodes, errv}
 		}
 		L["goldmark.Markdown.Convert"] = func(s *State, site ssa.Instruction, a []Val) []Val {
-			s.used("goldmark Convert(source, w): writes HTML to w and touches nothing else; for source text without control characters the markup written has none outside character references (raw HTML is not passed through, tag and attribute names are goldmark's own)")
+			s.used("goldmark Convert(source, w): writes HTML to w and touches nothing else; what it writes is a function of the source (mdhtml); for source text without control characters the markup written has none outside character references (raw HTML is not passed through, tag and attribute names are goldmark's own)")
 			s.declMk()
 			s.c.declare("textOfBytes", "(declare-fun textOfBytes (Int Int Int) Str)")
 			out := s.freshStr("mdhtml")
 			if len(a) >= 3 && a[1].Sl != nil {
 				src := app("textOfBytes", a[1].Sl.Base, a[1].Sl.Off, a[1].Sl.Len)
 				s.assume(implies(app("clean", src), app("mkclean", out.S)))
+				// what is written is a function of the source (the renderer is immutable after init)
+				s.c.declare("mdhtml", "(declare-fun mdhtml (Str) Str)")
+				s.assume(eq(out.S, app("mdhtml", src)))
 			}
 			if len(a) >= 3 {
-				s.ghost["buftext|"+app("pref", app("ipay", a[2].S))] = out
+				// the writer receives what Convert wrote AFTER what it held before: empty only for a buffer
+				// allocated in this activation that nothing has been written to yet
+				ref := app("pref", app("ipay", a[2].S))
+				key := "buftext|" + ref
+				var before Val
+				if prev, ok := s.ghost[key]; ok {
+					before = prev
+				} else {
+					before = s.freshStr("bufold")
+					s.assume(implies(app(">=", ref, s.alloc0), eq(before.S, s.c.lit(""))))
+				}
+				s.ghost[key] = s.cat(before, out)
 			}
 			errv, _ := s.errOrNil("converr", false)
 			return []Val{errv}
@@ -83,7 +97,11 @@ func init() {
 					r := s.freshStr("bufstr")
 					s.declMk()
 					ref := k[8:]
-					s.assume(implies(eq(ref, a[0].S), eq(r.S, v.S)))
+					recv := s.globRef(a[0])
+					if recv == "" {
+						return []Val{r}
+					}
+					s.assume(implies(eq(ref, recv), eq(r.S, v.S)))
 					return []Val{r}
 				}
 			}
